@@ -110,9 +110,11 @@ type Track struct {
 	Fuzzy   bool // ... one of which was combined with an edit
 	Revived bool // deleted and re-created at the same path on the branch
 	OverOld bool // renamed onto a path that an earlier branch commit had deleted
+	Touched int  // number of branch commits that renamed, deleted, re-created or edited the file
 }
 
 type trk struct {
+	touched int
 	origin  string
 	alt     []string
 	altNew  bool
@@ -149,6 +151,7 @@ func (h History) Ledger() []Track {
 			}
 			delete(cur, rn[0])
 			t.renamed = true
+			t.touched++
 			if c.Fuzzy {
 				t.fuzzy = true
 				t.altNew = true
@@ -169,6 +172,7 @@ func (h History) Ledger() []Track {
 		for _, f := range prev {
 			if !now[f.Path] && !src[f.Path] {
 				if t, ok := cur[f.Path]; ok {
+					t.touched++
 					dormant[f.Path] = t
 					delete(cur, f.Path)
 				}
@@ -182,10 +186,18 @@ func (h History) Ledger() []Track {
 			if !was[f.Path] && !dst[f.Path] {
 				if d, ok := dormant[f.Path]; ok {
 					d.revived = true
+					d.touched++
 					cur[f.Path] = d
 					delete(dormant, f.Path)
 				} else {
 					cur[f.Path] = &trk{}
+				}
+			}
+		}
+		for _, f := range c.Tree {
+			if pf, ok := prev.Get(f.Path); ok && pf.Text != f.Text {
+				if t, ok := cur[f.Path]; ok {
+					t.touched++
 				}
 			}
 		}
@@ -197,7 +209,7 @@ func (h History) Ledger() []Track {
 		if t == nil {
 			t = &trk{}
 		}
-		tr := Track{Path: f.Path, Renamed: t.renamed, Fuzzy: t.fuzzy, Revived: t.revived, OverOld: t.overOld}
+		tr := Track{Path: f.Path, Touched: t.touched, Renamed: t.renamed, Fuzzy: t.fuzzy, Revived: t.revived, OverOld: t.overOld}
 		tr.Origins = append(tr.Origins, Origin{Path: t.origin})
 		for _, a := range t.alt {
 			tr.Origins = append(tr.Origins, Origin{Path: a})
